@@ -97,6 +97,7 @@ type Task struct {
 	kvCount int
 	lockCnt int
 	noFault atomic.Bool
+	site    string // creation site of an adopted (anonymous) goroutine; named by the scheduler
 }
 
 // Stats are the reach measures of one run.
@@ -126,6 +127,7 @@ type Sim struct {
 	tasks     map[uint64]*Task
 	byName    map[string]*Task
 	parked    map[string]*Task
+	unnamed   []*Task // adopted goroutines parked for the first time, not yet named
 	anonCount map[string]int
 	probes    map[string]int
 	parkKinds map[string]int
@@ -354,18 +356,48 @@ func (s *Sim) taskForCurrent(adopt bool) *Task {
 		return t
 	}
 	site := creationSite()
+	t = &Task{sim: s, goid: gid, wake: make(chan string), site: site}
 	s.mu.Lock()
-	n := s.anonCount[site]
-	s.anonCount[site] = n + 1
-	name := fmt.Sprintf("~%s#%d", site, n)
-	t = &Task{Name: name, sim: s, goid: gid, wake: make(chan string)}
-	t.prio = Hash64(s.Seed, "prio", name)
 	s.tasks[gid] = t
-	s.byName[name] = t
 	s.stats.AnonAdopted++
 	s.stats.TasksSeen++
 	s.mu.Unlock()
 	return t
+}
+
+// nameAdopted gives names to goroutines that parked for the first time since the last
+// scheduling decision.  Several of them may have reached their first park concurrently (e.g.
+// timers firing at the same simulated instant), so the order in which they arrived is not
+// reproducible; they are named in the order of (creation site, park point) instead.
+func (s *Sim) nameAdopted() {
+	s.mu.Lock()
+	defer s.mu.Unlock()
+	if len(s.unnamed) == 0 {
+		return
+	}
+	us := s.unnamed
+	s.unnamed = nil
+	sort.SliceStable(us, func(i, j int) bool {
+		a, b := us[i], us[j]
+		if a.site != b.site {
+			return a.site < b.site
+		}
+		if a.pp.Kind != b.pp.Kind {
+			return a.pp.Kind < b.pp.Kind
+		}
+		if a.pp.Op != b.pp.Op {
+			return a.pp.Op < b.pp.Op
+		}
+		return a.pp.Key < b.pp.Key
+	})
+	for _, t := range us {
+		n := s.anonCount[t.site]
+		s.anonCount[t.site] = n + 1
+		t.Name = fmt.Sprintf("~%s#%d", t.site, n)
+		t.prio = Hash64(s.Seed, "prio", t.Name)
+		s.byName[t.Name] = t
+		s.parked[t.Name] = t
+	}
 }
 
 // CurrentTask returns the task of the calling goroutine (nil for the scheduler
@@ -393,7 +425,11 @@ func (s *Sim) park(t *Task, pp *ParkPoint) string {
 	}
 	s.mu.Lock()
 	t.pp = pp
-	s.parked[t.Name] = t
+	if t.Name == "" {
+		s.unnamed = append(s.unnamed, t)
+	} else {
+		s.parked[t.Name] = t
+	}
 	s.parkKinds[pp.Kind]++
 	s.mu.Unlock()
 	alt := <-t.wake
@@ -435,7 +471,37 @@ type choice struct {
 	alt string
 }
 
+// handOffLocks releases, without a scheduling decision, every task that is parked on a
+// contended lock which is free by now.  Whether a goroutine that was woken concurrently with the
+// lock holder (sync.Cond.Broadcast under the lock, timers firing at the same instant) found the
+// lock busy and parked, or found it free and ran on, depends on real thread timing; handing the
+// lock over silently makes both executions indistinguishable to the schedule.
+func (s *Sim) handOffLocks() {
+	for i := 0; i < 10000; i++ {
+		s.nameAdopted()
+		s.mu.Lock()
+		var names []string
+		for n, t := range s.parked {
+			if (t.pp.Kind == "lock" || t.pp.Kind == "rlock") && t.pp.Ready != nil && t.pp.Ready() {
+				names = append(names, n)
+			}
+		}
+		if len(names) == 0 {
+			s.mu.Unlock()
+			return
+		}
+		sort.Strings(names)
+		t := s.parked[names[0]]
+		delete(s.parked, names[0])
+		s.mu.Unlock()
+		t.wake <- Go
+		synctest.Wait()
+	}
+}
+
 func (s *Sim) runnable() []*Task {
+	s.handOffLocks()
+	s.nameAdopted()
 	s.mu.Lock()
 	ts := make([]*Task, 0, len(s.parked))
 	for _, t := range s.parked {
@@ -754,6 +820,7 @@ func (s *Sim) Abort() {
 	s.faultsOff = true
 	for i := 0; i < 50000; i++ {
 		synctest.Wait()
+		s.nameAdopted()
 		s.mu.Lock()
 		var t *Task
 		names := make([]string, 0, len(s.parked))
